@@ -171,4 +171,317 @@ def pendingRows : List (String × String) := [("ConjGrad.cg", "mean")]
 
 def Row.accounted (r : Row) : Bool := r.safe || allowedRows.contains (r.fn, r.op) || pendingRows.contains (r.fn, r.op)
 
+
+/-! # Phase 3 — the batched primitives of whole forward passes
+
+Everything below mirrors how `direct/nn` writes its forward passes: operations *along an axis* of the batch tensor
+(`mapAt` / `batchedAlong`: reductions, `select`, `narrow`, `cumsum`, `softmax`, … — anything that looks at one axis),
+`permute` as a product of adjacent axis swaps, `cat` / `stack` along an axis, the `batch * coil` fold of
+`MultiCoil.forward` with its un-fold, and the raw syntactic record (`Prim`) the translator emits for every such call
+site together with the decidable judgement `Prim.ok`. -/
+
+/-- apply `g` to every sub-tensor at depth `d` (`g` sees the sub-tensor whose axis 0 is axis `d` of the whole) -/
+def mapAt (g : NT → NT) : Nat → NT → NT
+  | 0, t => g t
+  | d + 1, .node xs => .node (xs.map (mapAt g d))
+  | _ + 1, t => t
+
+def unbatch : NT → List NT
+  | .node ys => ys
+  | t => [t]
+
+/-- an operation acting along axis `d` of the batch tensor, viewed as a batch again -/
+def batchedAlong (g : NT → NT) (d : Nat) (batch : List NT) : List NT := unbatch (mapAt g d (.node batch))
+
+def NT.children : NT → List NT
+  | .node xs => xs
+  | _ => []
+
+/-- swap axes 0 and 1 of a (rectangular) nested tensor -/
+def transpose01 : NT → NT
+  | .node rows =>
+    .node ((List.range ((rows.head?.map fun r => r.children.length).getD 0)).map fun j =>
+      .node (rows.map fun r => r.children.getD j (.leaf 0)))
+  | t => t
+
+/-- swap axes `d` and `d + 1` -/
+def swapAt (d : Nat) : NT → NT := mapAt transpose01 d
+
+/-- positions swapped while inserting `a` in front of the sorted list (bubble it to its place) -/
+def insertSwaps (a : Nat) : List Nat → Nat → List Nat
+  | [], _ => []
+  | x :: xs, off => if x < a then off :: insertSwaps a xs (off + 1) else []
+
+def insertSorted (a : Nat) : List Nat → List Nat
+  | [] => [a]
+  | x :: xs => if x < a then x :: insertSorted a xs else a :: x :: xs
+
+/-- insertion sort of an axis permutation by adjacent swaps: `(sorted list, positions swapped, in order)` -/
+def sortSwaps : List Nat → List Nat × List Nat
+  | [] => ([], [])
+  | a :: rest =>
+    let r := sortSwaps rest
+    (insertSorted a r.1, r.2.map (· + 1) ++ insertSwaps a r.1 0)
+
+/-- `torch.permute(perm)`: undo the sorting swaps in reverse order, starting from the identity layout -/
+def permuteNT (perm : List Nat) (t : NT) : NT := (sortSwaps perm).2.reverse.foldl (fun t d => swapAt d t) t
+
+def batchedPermute (perm : List Nat) (batch : List NT) : List NT :=
+  (sortSwaps perm).2.reverse.foldl (fun b d => batchedAlong transpose01 d b) batch
+
+/-- concatenate two tensors along axis `d` -/
+def catAt : Nat → NT → NT → NT
+  | 0, .node xs, .node ys => .node (xs ++ ys)
+  | d + 1, .node xs, .node ys => .node (List.zipWith (catAt d) xs ys)
+  | _, t, _ => t
+
+def batchedCat (d : Nat) (a b : List NT) : List NT := unbatch (catAt d (.node a) (.node b))
+
+/-! ## `batch * coil` folds (`MultiCoil.forward` with `coil_to_batch`, `x.reshape(batch * coil, …)`) -/
+
+/-- `x.reshape(batch * coil, …)` of a `(batch, coil, …)` tensor: row-major, sample after sample -/
+def mergeBC {α : Type} (xs : List (List α)) : List α := xs.flatten
+
+/-- `y.reshape(batch, coil, …)`: sample `n` gets rows `n·c … n·c + c − 1` -/
+def unmergeBC {α : Type} (b c : Nat) (ys : List α) : List (List α) :=
+  (List.range b).map fun n => (ys.drop (n * c)).take c
+
+/-- the un-fold a coil-major reading would do (`torch.stack(y.split(batch), dim=coil_dim)`): sample `n`, coil `j` is
+row `j·b + n` — kept as the counter-model -/
+def unmergeCB {α : Type} [Inhabited α] (b c : Nat) (ys : List α) : List (List α) :=
+  (List.range b).map fun n => (List.range c).map fun j => ys.getD (j * b + n) default
+
+/-- `MultiCoil.forward` with `coil_to_batch=True`: fold, apply the model row by row, un-fold -/
+def multiCoilFold {α β : Type} (f : α → β) (c : Nat) (xs : List (List α)) : List (List β) :=
+  unmergeBC xs.length c ((mergeBC xs).map f)
+
+/-- generic row-major reshape of the leading two axes into `rows` rows of `len` entries (flat data) -/
+def rowsOf {α : Type} (rows len : Nat) (flat : List α) : List (List α) := unmergeBC rows len flat
+
+/-! ## the translator's record of one call site, and the judgement -/
+
+/-- one batched primitive as the source writes it.
+* `family` 0 reduction (`sum`, `mean`, `std`, `amax`, `reduce_operator`, …), 1 operation along an axis (`cat`, `stack`,
+  `split`, `select`, `unsqueeze`, `softmax`, `flip`, a call handed `dim=`…), 2 `permute` (`form` 0, `args` the literal)
+  or `transpose`-like (`form` 1, `args` the two axes), 3 `reshape` / `view`, 4 `flatten`, 5 subscript at the batch
+  position, 6 functional with batch statistics or randomness, 7 whole-tensor query (`unique`, `nonzero`, …);
+* families 0/1/4 — `form` 0: the axes in `args`; 1: no axis given (all axes); 3: an open range starting at `args[0]`;
+  4: the axis is a parameter of the enclosing function (its call sites have their own rows);
+* family 3 — `form`: first target extent is 0 the batch size, 1 the literal `-1`, 2 a product containing the batch size,
+  3 another integer literal, 5 another named extent; `args = [rest]` with rest 0 "all remaining extents are 1",
+  1 "the second extent restores the folded axis", 2 otherwise;
+* `sink` 1: the value only feeds the test of an `if` whose body is nothing but `warnings.warn(…)`. -/
+structure Prim where
+  fn : String
+  family : Nat
+  op : String
+  form : Nat
+  args : List Int
+  sink : Nat
+deriving Repr, DecidableEq, Inhabited
+
+def axesAvoidBatch (form : Nat) (args : List Int) : Bool :=
+  (form == 0 && !args.isEmpty && args.all (· != 0)) || (form == 3 && !args.isEmpty && args.all fun a => decide (1 ≤ a)) || form == 4
+
+/-- the primitive cannot couple the samples of a batch -/
+def Prim.ok (p : Prim) : Bool :=
+  match p.family with
+  | 0 => axesAvoidBatch p.form p.args || (p.form == 1 && p.sink == 1)
+  | 1 => axesAvoidBatch p.form p.args
+  | 2 => if p.form == 0 then p.args.head? == some 0 else p.form == 1 && !p.args.isEmpty && p.args.all (· != 0)
+  | 3 => p.form == 0 || (p.form == 1 && p.args == [0]) || p.form == 2
+  | 4 => p.form == 0 && !p.args.isEmpty && p.args.all (· != 0)
+  | 6 => p.form == 0
+  | _ => false
+
+def Prim.isMerge (p : Prim) : Bool := p.family == 3 && p.form == 2
+def Prim.isUnmerge (p : Prim) : Bool := p.family == 3 && p.form == 0 && p.args == [1]
+
+/-- all call sites of one function -/
+structure FuncRow where
+  name : String
+  prims : List Prim
+deriving Repr, Inhabited
+
+/-- every primitive is per-sample, and a `batch * coil` fold is un-folded again inside the same function -/
+def FuncRow.ok (f : FuncRow) : Bool := f.prims.all Prim.ok && (!f.prims.any Prim.isMerge || f.prims.any Prim.isUnmerge)
+
+/-- FINDING (current tree), as before: the batch-mean stopping test of `ConjGrad.cg` -/
+def pendingPrims : List (String × String) := [("ConjGrad.cg", "mean")]
+
+def Prim.accounted (p : Prim) : Bool := p.ok || pendingPrims.contains (p.fn, p.op)
+def FuncRow.accounted (f : FuncRow) : Bool :=
+  f.prims.all Prim.accounted && (!f.prims.any Prim.isMerge || f.prims.any Prim.isUnmerge)
+
+/-- a zoo model: its name and the indices (into the function table) of the functions of `/repo/direct` that one
+evaluation executes -/
+abbrev ModelRow := String × List Nat
+
+def ModelRow.ok (tbl : List FuncRow) (m : ModelRow) : Bool :=
+  m.2.all fun i => match tbl[i]? with | some f => f.ok | none => false
+
+def ModelRow.accounted (tbl : List FuncRow) (m : ModelRow) : Bool :=
+  m.2.all fun i => match tbl[i]? with | some f => f.accounted | none => false
+
+def ModelRow.prims (tbl : List FuncRow) (m : ModelRow) : List Prim :=
+  m.2.flatMap fun i => match tbl[i]? with | some f => f.prims | none => []
+
+/-! ## data-flow graphs over a primitive table -/
+
+/-- a forward pass as a data-flow expression: the input batch, torch kernels that are per-sample by their contract
+(convolution, activation, element-wise arithmetic, eval-mode normalisation layers — `kern`), a table primitive applied
+to a sub-expression, and combinations of two branches sample by sample (skip connections, gates, `cat` / `stack` along a
+non-batch axis — `zip`) -/
+inductive Prog where
+  | input : Prog
+  | kern (name : String) (e : Prog) : Prog
+  | prim (p : Prim) (e : Prog) : Prog
+  | zip (name : String) (e₁ e₂ : Prog) : Prog
+deriving Repr
+
+def Prog.prims : Prog → List Prim
+  | .input => []
+  | .kern _ e => e.prims
+  | .prim p e => p :: e.prims
+  | .zip _ a b => a.prims ++ b.prims
+
+/-- what the primitives and kernels denote -/
+structure Interp where
+  kern : String → NT → NT
+  zip : String → NT → NT → NT
+  prim : Prim → List NT → List NT
+
+def Prog.eval (I : Interp) : Prog → List NT → List NT
+  | .input, xs => xs
+  | .kern n e, xs => (e.eval I xs).map (I.kern n)
+  | .prim p e, xs => I.prim p (e.eval I xs)
+  | .zip n a b, xs => List.zipWith (I.zip n) (a.eval I xs) (b.eval I xs)
+
+def natAxis (rank : Nat) (a : Int) : Nat := (normAxis rank a).toNat
+
+/-- `transpose(a, b)` as a permutation literal -/
+def swapPerm (rank a b : Nat) : List Nat := (List.range rank).map fun i => if i = a then b else if i = b then a else i
+
+/-- the standard interpretation: reductions and along-axis operations act through `batchedAlong` on the listed axes
+(largest first), `permute` through adjacent swaps, a reshape that keeps the batch extent / the per-sample broadcast idiom
+and the per-sample functionals act sample by sample; `rank` gives the rank of the operand (for negative axes), `along`
+the per-axis action of every operation name.  Call sites that are *not* `ok` denote a reduction over the batch axis. -/
+def alongSem (rank : Prim → Nat) (along : String → NT → NT) (opq : String → NT → NT) (p : Prim) (batch : List NT) : List NT :=
+  if p.form == 0 then
+    ((p.args.map (natAxis (rank p))).mergeSort (· ≥ ·)).foldl (fun b d => batchedAlong (along p.op) d b) batch
+  else if p.form == 3 then
+    -- an open range `k, k+1, …` of axes
+    ((List.range (rank p)).filter fun d => decide ((p.args.headD 1).toNat ≤ d)).reverse.foldl (fun b d => batchedAlong (along p.op) d b) batch
+  else batch.map (opq p.op)
+
+def permSem (rank : Prim → Nat) (p : Prim) (batch : List NT) : List NT :=
+  if p.form == 0 then batchedPermute (p.args.map Int.toNat) batch
+  else batchedPermute (swapPerm (rank p) (natAxis (rank p) (p.args.headD 1)) (natAxis (rank p) (p.args.getD 1 1))) batch
+
+def stdInterp (rank : Prim → Nat) (along : String → NT → NT) (opq : String → NT → NT) (zp : String → NT → NT → NT) : Interp where
+  kern := opq
+  zip := zp
+  prim p := fun batch =>
+    if p.ok then
+      if p.family == 0 || p.family == 1 || p.family == 4 then alongSem rank along opq p batch
+      else if p.family == 2 then permSem rank p batch
+      else batch.map (opq p.op)
+    else batchedAlong (along p.op) 0 batch
+
+/-! ## effects: every way a forward pass could keep state between calls -/
+
+/-- `kind` 0 assignment to `self.x`; 1 `setattr` / `register_buffer` / `__dict__` / `self.train()`; 2 in-place method or
+item assignment on a `self.*` chain; 3 class attribute; 4 module-level name (`global`, `_CACHE[k] = …`); 5 memoising
+decorator; 6 process-wide torch switch (`torch.backends.*`, `set_default_dtype`, `set_grad_enabled`, seeding, …);
+7 mutable default argument; 8 in-place update of a parameter (the caller's object); 9 in-place method on a local tensor -/
+structure EffRow where
+  fn : String
+  kind : Nat
+  detail : String
+deriving Repr, DecidableEq
+
+/-- updates of the caller's *dictionary* by the engines' `forward_function` (`data["sensitivity_map"] = …`): the harness
+hands every call its own dictionary, and the value written is a function of that call's inputs only -/
+def allowedEffects : List (String × String) :=
+  [("LPDNetEngine.forward_function", "data['sensitivity_map']"),
+   ("MRIVarSplitNetEngine.forward_function", "data['sensitivity_map']"),
+   ("VSharpNet3DEngine.forward_function", "data['sensitivity_map']"),
+   ("VSharpNetEngine.forward_function", "data['sensitivity_map']")]
+
+def EffRow.ok (r : EffRow) : Bool := r.kind == 9 || (r.kind == 8 && allowedEffects.contains (r.fn, r.detail))
+
+/-- where state can live between calls -/
+inductive Loc where
+  | attr (name : String)       -- `self.x`, buffers, sub-module flags
+  | cls (name : String)        -- class attributes, shared by all instances
+  | glob (name : String)       -- module-level names, memo tables, default-argument objects
+  | switch (name : String)     -- `torch.backends.*`, default dtype, grad mode, RNG state
+deriving Repr, DecidableEq
+
+abbrev Store := Loc → Int
+
+def Store.write (s : Store) (l : Loc) (v : Int) : Store := fun l' => if l' = l then v else s l'
+
+/-- a call described by what it does: reads the store and the input, returns the writes it performs and its output -/
+abbrev Call (ι ο : Type) := Store → ι → List (Loc × Int) × ο
+
+def applyWrites (s : Store) (ws : List (Loc × Int)) : Store := ws.foldl (fun s w => s.write w.1 w.2) s
+
+def Call.toModule {ι ο : Type} (c : Call ι ο) : Module Store ι ο := fun s x => (applyWrites s (c s x).1, (c s x).2)
+
+/-- a history that interleaves calls to two instances sharing class / module / process state: `Sum.inl` = first -/
+def runTwo {ι ο : Type} (a b : Call ι ο) : Store → List (ι ⊕ ι) → Store × List ο
+  | s, [] => (s, [])
+  | s, .inl x :: rest =>
+    let r := a s x
+    let t := runTwo a b (applyWrites s r.1) rest
+    (t.1, r.2 :: t.2)
+  | s, .inr x :: rest =>
+    let r := b s x
+    let t := runTwo a b (applyWrites s r.1) rest
+    (t.1, r.2 :: t.2)
+
+/-! ## coil expressions: what a network may do with the coil axis -/
+
+mutual
+/-- coil-indexed values: the coil's own k-space / sensitivity entry, the same function applied to every coil
+(`compute_model_per_coil`, `MultiCoil`, FFT, masking), element-wise combination of two coil tensors, an image broadcast to
+every coil (`unsqueeze(coil_dim)`, `expand_operator`) -/
+inductive CExpr (D : Type) where
+  | k : CExpr D
+  | s : CExpr D
+  | perCoil (f : D → D) (e : CExpr D) : CExpr D
+  | zip (g : D → D → D) (e₁ e₂ : CExpr D) : CExpr D
+  | bcast (g : D → D → D) (i : IExpr D) (e : CExpr D) : CExpr D
+/-- coil-free values: a sum over the coil axis, image-domain operations -/
+inductive IExpr (D : Type) where
+  | sum (e : CExpr D) : IExpr D
+  | const (d : D) : IExpr D
+  | op (f : D → D) (i : IExpr D) : IExpr D
+  | op2 (g : D → D → D) (i₁ i₂ : IExpr D) : IExpr D
+end
+
+mutual
+def CExpr.eval {D : Type} (add : D → D → D) (zero : D) : CExpr D → List (D × D) → List D
+  | .k, inp => inp.map (·.1)
+  | .s, inp => inp.map (·.2)
+  | .perCoil f e, inp => (e.eval add zero inp).map f
+  | .zip g a b, inp => List.zipWith g (a.eval add zero inp) (b.eval add zero inp)
+  | .bcast g i e, inp => (e.eval add zero inp).map (g (i.eval add zero inp))
+def IExpr.eval {D : Type} (add : D → D → D) (zero : D) : IExpr D → List (D × D) → D
+  | .sum e, inp => (e.eval add zero inp).foldr add zero
+  | .const d, _ => d
+  | .op f i, inp => f (i.eval add zero inp)
+  | .op2 g a b, inp => g (a.eval add zero inp) (b.eval add zero inp)
+end
+
+/-- reorder the coils: `σ` lists, for every new position, the old coil index -/
+def gather {α : Type} (σ : List Nat) (xs : List α) : List α := σ.filterMap fun i => xs[i]?
+
+/-- operations outside the language, kept as counter-models: singling out coil `j`, and a convolution that treats the
+coils as channels (`out_i = Σ_j w i j · x_j` with weights depending on the coil *positions*) -/
+def selectCoil {D : Type} (zero : D) (j : Nat) (xs : List D) : D := xs.getD j zero
+def coilMix (w : Nat → Nat → Int) (xs : List Int) : List Int :=
+  (List.range xs.length).map fun i => ((List.range xs.length).map fun j => w i j * xs.getD j 0).foldr (· + ·) 0
+
 end DirectVerif.BatchSep
